@@ -238,6 +238,9 @@ func (c *connectClient) WriteRequestHeader(streamType StreamType, header http.He
 		// server to compress the whole stream. Since we're already compressing
 		// each message, this is a waste.
 		header[connectUnaryHeaderAcceptCompression] = []string{compressionIdentity}
+		// Likewise, the body as a whole isn't compressed, whatever an earlier use
+		// of this header map (a reused or forwarded Request) said about its own.
+		delete(header, connectUnaryHeaderCompression)
 		acceptCompressionHeader = connectStreamingHeaderAcceptCompression
 		// We only write the request encoding header here for streaming calls,
 		// since the streaming envelope lets us choose whether to compress each
